@@ -82,6 +82,9 @@ func checkC04(c *Ctx) {
 	checkOptionalFile(c, ev)
 	// client and server must read the same flags off a parameter (the client skips what the server requires …)
 	checkParamFlags(c, "C04.R1.param-flags", gen)
+	checkFormatGuards(c, "C04.R1.format-guards", ev, 2)
+	// a valid body must reach the handler: the validator of a body array looks at the stored body
+	checkSliceValidatorSeesValue(c, "C04.R1.validated-value", ev)
 	checkHeaderWriterGuards(c, ev)
 	checkIndexedJoins(c, ev)
 	checkInnerArraysKept(c, "C04.R1.inner-arrays-kept", ev)
